@@ -1035,12 +1035,12 @@ def compare_point(ins, r, mm, b):
         if mv == "-":
             return False
         if mv == "ub":
-            return int(r["ubv"]) > 0
+            return True     # undefined: any value; UBSan reports a location only once per process, so no report is required
         return parse_impl_val(t, r["val"]) == mv
     return True
 
 
-def explore(tier, seed, rng, wd, only=None):
+def explore(tier, seed, rng, wd, only=None, only_casts=None):
     t0 = time.time()
     drv = Driver()
     insts = only if only is not None else gen_instances(rng, tier)
@@ -1075,6 +1075,8 @@ def explore(tier, seed, rng, wd, only=None):
         configs += [("clang++-14", ["c++14", "c++17", "c++20"][seed % 3], "cl")]
     elif seed % 2 == 1:
         configs = [("clang++-14", ["c++14", "c++17", "c++20"][(seed // 2) % 3], "cl")]
+    if _REPLAY_CONFIG:
+        configs = [_REPLAY_CONFIG]
     npts = 40 if tier == "quick" else 250
     pts = {}
     for i in live:
@@ -1087,7 +1089,7 @@ def explore(tier, seed, rng, wd, only=None):
                 pts[i["id"]] = int_points(rng, i, npts if INT_TYPES[i["S"]][1] > 16 else npts // 3)
         else:
             pts[i["id"]] = float_points(rng, i, npts)
-    cpts = {(s, t): cast_points(rng, s, t) for s in ALL for t in ALL} if only is None else {}
+    cpts = {(s, t): cast_points(rng, s, t) for s in ALL for t in ALL} if only is None else (only_casts or {})
     stats["timing"]["generate"] = round(time.time() - t0, 1)
     samples = []
     distinct = set()
@@ -1144,7 +1146,7 @@ def explore(tier, seed, rng, wd, only=None):
                 same = b not in ("bad-op", "nocompile") and r["ovf"] == mm["ovf"] and r["trunc"] == mm["trunc"] and int(r["ubc"]) == 0
                 if same and r["val"] != "-":
                     mval = parse_model_val(t, mm["val"])
-                    same = (mval == "ub" and int(r["ubv"]) > 0) or (mval != "ub" and parse_impl_val(t, r["val"]) == mval)
+                    same = mval == "ub" or parse_impl_val(t, r["val"]) == mval
                 if not same:
                     add_violation({"what": f"static_cast checker: model and implementation differ for {s}->{t} at x={base['x']}", "class": "corr-cast",
                                    "no_input": True, "broken": "correspondence: c05 cast", "rec": dict(base, observable="corr", model=b, impl=a)})
@@ -1302,13 +1304,158 @@ def explore(tier, seed, rng, wd, only=None):
     return coverage, violations, pending
 
 
+# ------------------------------------------------------------------------------------------------
+# Extraction: the cast constants as the compilers evaluate them → lean/Generated/CastConsts.lean
+# ------------------------------------------------------------------------------------------------
+
+EXTRACT_SRC = r'''
+#include <cstdint>
+#include <cstdio>
+#include <limits>
+template <class F, class D> void row(const char* fn, const char* dn) {
+    constexpr F lo = static_cast<F>(std::numeric_limits<D>::lowest());
+    constexpr F hi = static_cast<F>(std::numeric_limits<D>::max());
+    volatile D vlo = std::numeric_limits<D>::lowest(), vhi = std::numeric_limits<D>::max();
+    F rlo = static_cast<F>(vlo), rhi = static_cast<F>(vhi);      // the same casts at run time
+    printf("%s %s %La %La %La %La\n", fn, dn, (long double)lo, (long double)hi, (long double)rlo, (long double)rhi);
+}
+template <class F> void ints(const char* fn) {
+    row<F, int8_t>(fn, "i8"); row<F, uint8_t>(fn, "u8"); row<F, int16_t>(fn, "i16"); row<F, uint16_t>(fn, "u16");
+    row<F, int32_t>(fn, "i32"); row<F, uint32_t>(fn, "u32"); row<F, int64_t>(fn, "i64"); row<F, uint64_t>(fn, "u64");
+}
+int main() {
+    ints<float>("f32"); ints<double>("f64"); ints<long double>("f80");
+    row<double, float>("f64", "f32"); row<long double, float>("f80", "f32"); row<long double, double>("f80", "f64");
+    return 0;
+}
+'''
+
+
+def extract_cast_consts(wd):
+    """Returns (rows, problems).  rows: (F, dest, lo:int, hi:int)."""
+    p = os.path.join(wd, "castconsts.cc")
+    open(p, "w").write(EXTRACT_SRC)
+    outs = {}
+    problems = []
+    for comp in ("g++", "clang++-14"):
+        exe = os.path.join(wd, "castconsts_" + comp.replace("+", "p"))
+        rc, out = cxx(p, exe, compiler=comp, std="c++14", san=False)
+        if rc != 0:
+            problems.append(f"{comp}: extraction program does not compile: {out[-500:]}")
+            continue
+        rc, o, e = run([exe])
+        outs[comp] = o
+    vals = list(outs.values())
+    if not vals:
+        return None, problems
+    if any(v != vals[0] for v in vals):
+        problems.append("g++ and clang++ disagree on static_cast<F>(numeric_limits<D>::max()/lowest())")
+    rows = []
+    for l in vals[0].strip().split("\n"):
+        f, d, lo, hi, rlo, rhi = l.split()
+        lo, hi, rlo, rhi = (parse_hex(v) for v in (lo, hi, rlo, rhi))
+        if (lo, hi) != (rlo, rhi):
+            problems.append(f"compile-time and run-time cast differ for {f} <- limits of {d}")
+        if isinstance(lo, str) or isinstance(hi, str) or lo.denominator != 1 or hi.denominator != 1:
+            problems.append(f"cast constant is not a finite integer: {l}")
+            continue
+        rows.append((f, d, int(lo), int(hi)))
+    return rows, problems
+
+
+def write_cast_consts(rows):
+    def enc(f, d, lo, hi):
+        _, sp, se = FLT[f]
+        if is_int(d):
+            _, b, sg = INT_TYPES[d]
+            return f"({sp}, {se}, true, {b}, {1 if sg else 0}, {lo}, {hi})"
+        _, dp, de = FLT[d]
+        return f"({sp}, {se}, false, {dp}, {de}, {lo}, {hi})"
+    txt = ("/-! Regenerated by tools/p_c05.py on every run (rewritten only when the content changes).\n"
+           "Rows: (source digits, source emax, destination is integral, destination bits | digits,\n"
+           "destination signed (0/1) | emax, static_cast<Source>(lowest(Dest)), static_cast<Source>(max(Dest)))\n"
+           "as printed by g++ 12 and clang++ 14 (compile-time and run-time evaluation agree). -/\n"
+           "namespace Au.Generated\n\n"
+           "def castConsts : List (Nat × Nat × Bool × Nat × Nat × Int × Int) := [\n  "
+           + ",\n  ".join(enc(*r) for r in rows) + "\n]\n\nend Au.Generated\n")
+    path = os.path.join(LEAN, "Generated", "CastConsts.lean")
+    old = open(path).read() if os.path.exists(path) else None
+    if old != txt:
+        tmp = path + ".tmp"
+        open(tmp, "w").write(txt)
+        os.replace(tmp, path)
+    return path
+
+
+# ------------------------------------------------------------------------------------------------
+# Entry points
+# ------------------------------------------------------------------------------------------------
+
 def main(tier, seed):
     t0 = time.time()
     wd = workdir(PROP)
+    rows, problems = extract_cast_consts(wd)
+    if rows:
+        write_cast_consts(rows)
     proof = prove(PROP)
     cov, viol, pending = explore(tier, seed, rng_for(PROP, seed), wd)
+    for pr in problems:
+        viol.append({"what": "extraction of the cast constants: " + pr, "class": "extraction", "no_input": True,
+                     "broken": "extraction: Generated/CastConsts.lean", "rec": {"kind": "extraction"}})
+    cov["cast_constants_extracted"] = len(rows or [])
     for f in PENDING_FINDINGS:
         if pending.get(f["key"]):
             print(f"PENDING-FINDING: property={PROP} {f['key']}: {f['what']} ({len(pending[f['key']])} matching case(s) this run; "
-                  f"e.g. {json.dumps(pending[f['key']][0]['rec'], default=str)[:300]})")
+                  f"e.g. {json.dumps({k: v for k, v in pending[f['key']][0]['rec'].items() if k not in ('impl', 'model')}, default=str)[:400]})")
     return finish(PROP, tier, seed, t0, proof, cov, viol, ASSUME)
+
+
+def _parse_x(s, txt):
+    txt = str(txt)
+    return int(txt) if is_int(s) else parse_hex(txt)
+
+
+def replay(path):
+    """Re-run one recorded case against the current tree: implementation, model and oracle."""
+    rec = json.load(open(path))
+    r = rec.get("rec", {})
+    print(json.dumps({k: v for k, v in r.items() if k not in ("tu",)}, indent=1, default=str))
+    if "S" not in r or "T" not in r:
+        print("replay: the record names a broken obligation / build, not an input:", rec.get("broken") or rec.get("what"))
+        return 1
+    s, t = r["S"], r["T"]
+    wd = workdir(PROP + "_replay")
+    cfg = r.get("config", "g++ -std=c++14")
+    n, d = int(r.get("N", 1)), int(r.get("D", 1))
+    x = r.get("x")
+    ins = {"id": 0, "S": s, "T": t, "C": common(s, t), "N": n, "D": d, "pf": pf_text(n, d)}
+    casts = None
+    if r.get("kind") == "cast":
+        casts = {(s, t): [_parse_x(s, x)]}
+        ins["xs"] = []
+    elif x not in (None, "-", "None"):
+        ins["xs"] = [_parse_x(s, x)]
+    # without a recorded value (digest mismatch): the whole sweep of an 8/16-bit source is repeated
+    comp = cfg.split()[0]
+    std = cfg.split()[1].replace("-std=", "")
+    global _REPLAY_CONFIG
+    _REPLAY_CONFIG = (comp, std, "rp")
+    try:
+        cov, viol, pending = explore("quick", 0, rng_for(PROP, 0), wd, only=[ins], only_casts=casts)
+    finally:
+        _REPLAY_CONFIG = None
+    allv = viol + [v for vs in pending.values() for v in vs]
+    for v in allv:
+        print("  -", v["what"])
+        for k in ("impl", "model"):
+            if k in v.get("rec", {}):
+                print(f"      {k}: {v['rec'][k]}")
+    if allv:
+        concrete = [v for v in allv if not v.get("no_input")]
+        print(f"VIOLATION property={PROP} replay={path}" + ("" if concrete else " no-failing-input-found"))
+        return 1
+    print("replay: property holds on this case (model and implementation agree, oracle satisfied)")
+    return 0
+
+
+_REPLAY_CONFIG = None
